@@ -70,7 +70,10 @@ def specs2():
             continue
         out.append([f(1, fn1, d1), f(2, fn2, d2)])
     out += [[f(1, 'user', 1), f(2, 'cmp', -1)], [f(1, 'cmp', 1), f(2, 'user', 1)], [f(1, 'user', -1), f(2, 'user', 1)],
-            [f(1, 'locale', -1), f(2, 'nocase', 1)], [f(2, 'locale_nocase', 1), f(1, 'user', 1)]]
+            [f(1, 'locale', -1), f(2, 'nocase', 1)], [f(2, 'locale_nocase', 1), f(1, 'user', 1)],
+            # the same field twice: case-insensitively first, case-sensitively (either direction) to break the ties
+            [f(1, 'nocase', 1), f(1, 'cmp', 1)], [f(1, 'nocase', 1), f(1, 'cmp', -1)], [f(1, 'nocase', -1), f(1, '', 1)],
+            [f(2, 'nocase', 1), f(2, 'cmp', -1), f(1, '', 1)]]
     return out
 
 
